@@ -67,6 +67,7 @@ var checks = []Check{
 			Harness{Fn: "ZZC11ArraySlice", Quick: p("N", 3), Thorough: p("N", 6), Expect: []string{"slice-ok", "slice-err", "witness:end"}},
 			Harness{Fn: "ZZC11StringIndex", Quick: p("N", 3), Thorough: p("N", 6), Expect: []string{"sindex-ok", "sindex-err", "witness:end"}},
 			Harness{Fn: "ZZC11StringSlice", Quick: p("N", 2), Thorough: p("N", 4), Expect: []string{"sslice-ok", "sslice-err", "witness:end"}},
+			Harness{Fn: "ZZC11Errmsg", Quick: p("HE", 2), Thorough: p("HE", 3), Expect: []string{"errmsg-ok", "witness:end"}},
 		)},
 		Assumptions: []string{
 			"float64->int conversion of NaN/Inf/|x|>=2^63 modelled as an unconstrained result (Go: implementation-defined); either error class accepted there",
@@ -83,6 +84,7 @@ var checks = []Check{
 		Units: []Unit{evalUnit([]string{"evaluator/common.go", "evaluator/c12.go"},
 			Harness{Fn: "ZZC12Step", Quick: p("K", 3), Thorough: p("K", 4), Expect: []string{"missing-key", "op-ok", "witness:end"}},
 			Harness{Fn: "ZZC12Iter", Quick: p("K", 3), Thorough: p("K", 4), Expect: []string{"iter-ok", "witness:end"}},
+			Harness{Fn: "ZZC12Copies", Quick: p("K", 2), Thorough: p("K", 3), Expect: []string{"copies-ok", "witness:end"}},
 			Harness{Fn: "ZZC12Equal", Quick: p("K", 2), Thorough: p("K", 3), Expect: []string{"witness:end"}},
 		)},
 		Assumptions: []string{
